@@ -351,6 +351,10 @@ void QXmppOutgoingClient::_q_socketDisconnected()
     debug(u"Socket disconnected"_s);
     d->isAuthenticated = false;
     if (d->nextAddressState == QXmppOutgoingClientPrivate::TryNext) {
+        // requests retained for a session that cannot be resumed any more will never be answered
+        if (!d->c2sStreamManager.canResume()) {
+            d->iqManager.onSessionClosed(SessionEnd { false });
+        }
         d->connectToNextAddress();
     } else if (d->redirect) {
         // a redirect may also arrive on an established session; that session is over now
